@@ -52,8 +52,22 @@ def run(ctx, report):
                 continue
             # Ok(NodeId { raw }) with raw the success payload of <[u8;32]>::try_from(input): exactly 32 bytes, copied (std contract)
             v0 = strip(es.a[1]["0"])
+            if v0.k == "call" and v0.a[0].target() == "node_id::NodeId::new" and len(v0.a[1]) == 1:
+                # NodeId::new(r) with r: &[u8; 32] = the success payload of <&[u8; 32]>::try_from(input) (new copies *r: IDENT/new)
+                r0 = strip(v0.a[1][0])
+                while r0.k in ("deref", "ref"):
+                    r0 = strip(r0.a[0])
+                src0 = ok_payload(r0)
+                sc0 = strip(src0) if src0 is not None else None
+                if sc0 is not None and sc0.k == "call" and sc0.a[0].name in ("try_from", "try_into") and "[u8; 32]" in sc0.a[0].full and strip(sc0.a[1][0]).k == "param" and strip(sc0.a[1][0]).a[0] == 1:
+                    report.ob("PARSE", "parse/exactly-32", True, "parse succeeds via <&[u8;32]>::try_from(slice): exactly 32 bytes", cfg, node.sp)
+                    report.ob("PARSE", "parse/copies-input", True, "the parsed id is NodeId::new of the array <&[u8;32]>::try_from borrowed from the input", cfg, node.sp)
+                    continue
             if v0.k == "agg" and v0.a[0].endswith("NodeId::NodeId"):
-                src = ok_payload(strip(v0.a[1]["raw"]))
+                raw0 = strip(v0.a[1]["raw"])
+                while raw0.k == "deref":
+                    raw0 = strip(raw0.a[0])  # `*r` with r: &[u8; 32] from <&[u8; 32]>::try_from(slice)
+                src = ok_payload(raw0)
                 sc = strip(src) if src is not None else None
                 if sc is not None and sc.k == "call" and sc.a[0].name in ("try_from", "try_into") and "[u8; 32]" in sc.a[0].full and strip(sc.a[1][0]).k == "param" and strip(sc.a[1][0]).a[0] == 1:
                     report.ob("PARSE", "parse/exactly-32", True, "parse succeeds via <[u8;32]>::try_from(slice): exactly 32 bytes", cfg, node.sp)
@@ -156,6 +170,10 @@ def run(ctx, report):
                 ok = r0 == (0, 2) and r1 == (30, 32)
                 why = "data parts cover bytes %s and %s, expected (0,2) and (30,32)" % (r0, r1)
         report.check("TEXT", "Display", ok, "Display shows hex of the first two and of the last two bytes", "Display: " + why, fn=f.path, sp=f.span, config=cfg)
+        if pieces is not None:
+            tmpl = b"".join(p_[1] if p_[0] == "lit" else b"{}" for p_ in pieces)
+            report.check("TEXT", "Display/template", tmpl == b"0x{}..{}", "the constant parts of Display are `0x`, `..` around the two hex groups (the documented short form 0xabcd..ef12)",
+                         "Display's constant parts are %r, the short form is 0x{}..{}" % tmpl, fn=f.path, sp=f.span, config=cfg)
 
     # ------------------------------------------------------------ serde
     if "serde" not in facts.features:
@@ -357,4 +375,8 @@ def hex_byte_range(e):
             r = shapes.range_of(inner.a[1][1])
             if r and isinstance(r[0], int) and (r[1] is None or isinstance(r[1], int)):
                 return (r[0], 32 if r[1] is None else r[1])
+        # any constant sub-slice of raw: split_at halves, nested ranges
+        r = shapes.slice_range(inner)
+        if r is not None and r != (0, None) and isinstance(r[0], int) and (r[1] is None or isinstance(r[1], int)) and P.match(shapes.slice_base(inner), RAW) is not None:
+            return (r[0], 32 if r[1] is None else r[1])
     return None
